@@ -206,7 +206,7 @@ def gen_random(rng, n, public):
         if r < 0.06:
             ops.append(("FREE",))
         elif r < 0.16:
-            ops.append(("ADD", L, rng.randrange(GROW)))
+            ops.append(("ADD", L, rng.randrange(len(RULES))))
         elif r < 0.36:
             ops.append(("GET", L))
         elif r < 0.41:
@@ -223,10 +223,10 @@ def gen_random(rng, n, public):
 
 
 def gen_growth(rng, n):
-    """histories over the good lists only, in which rules are added before the first use of a list: tables
-    grow and move while other lists are cached.  (An `include` added after ANY failed compilation or failed
-    lou_compileString fails because errorCount is stale — finding F7, searched by C08/C15 — so these
-    histories contain no failing list and no ADD to a finalized table.)"""
+    """histories over the good lists only, in which rules (mostly the `include` that makes the table grow by
+    250000 bytes) are added before the first use of a list: tables grow and move while other lists are
+    cached.  (Before the F7 repair an `include` added after any failed compilation failed; the general
+    random histories add it anywhere since.)"""
     ops = []
     fresh = set(GOOD)
     for _ in range(n):
